@@ -22,6 +22,9 @@
 //	         fresh printers, on printers whose buffers were grown by earlier legal format calls of the program,
 //	         and on printers grown earlier in the process under a larger limit (formatter printers are pooled);
 //	         plus random flag/width/precision/verb combinations. Same oracles as length; CORRESPONDENCE: `bufseq`.
+//	wide     (wide.go) the boundary, length and padding streams with texts whose rune count is below their byte
+//	         count (2-4 byte runes, unprintable runes, invalid bytes; operands, literal text of format strings,
+//	         characters): every case under EVERY maximum between the rune count and the byte count of its result.
 //	depth    recursion around MaxFrames (errors.Is(ErrStackOverflow) when frames run out; Lean frame machine on
 //	         the measured call/return trace) and operand-stack exhaustion through RunContext (an error, never a
 //	         crash, growth or hang).
@@ -914,7 +917,9 @@ func guardAPI() {
 
 // genStrProg: a short random program of string/bytes producing operations with lengths near the maximum.
 // It includes the two producers repaired after O12 / O13 (non-string map index, type_name).
-func genStrProg(r *lib.RNG, L int) string {
+// wide: the texts are made of 2-4 byte runes, invalid bytes and ASCII (lengths are still byte counts), and
+// characters, wide literal text in format strings and %c / %U / %q of wide runes are added.
+func genStrProg(r *lib.RNG, L int, wide bool) string {
 	if L > 200 {
 		L = 40 // default maxima: ordinary sizes
 	}
@@ -930,7 +935,11 @@ func genStrProg(r *lib.RNG, L int) string {
 		return r.Intn(L + 1)
 	}
 	var sb strings.Builder
-	fmt.Fprintf(&sb, "s0 := %s\ns1 := %s\ns2 := \"\"\nb0 := bytes(%s)\narr := []\nm := {}\ne := undefined\n", lit(near()), lit(near()), lit(r.Intn(L/2+1)))
+	mk := lit
+	if wide {
+		mk = func(n int) string { return wlit(r, n) }
+	}
+	fmt.Fprintf(&sb, "s0 := %s\ns1 := %s\ns2 := \"\"\nb0 := bytes(%s)\narr := []\nm := {}\ne := undefined\n", mk(near()), mk(near()), mk(r.Intn(L/2+1)))
 	sb.WriteString("rep := func(s, n) { r := \"\"; for i := 0; i < n; i++ { r += s }; return r }\n")
 	sv := func() string { return "s" + lib.N(r.Intn(3)) }
 	nonstr := []string{"123", "-4.5", "'c'", "true", "[1, 2]", "{a: 1}", "undefined", "b0", "error(s1)", "1234567890123", "arr", "m", "immutable([s0])"}
@@ -940,7 +949,23 @@ func genStrProg(r *lib.RNG, L int) string {
 	// map indexes that are converted to their text (undefined is not a valid index and is left out)
 	idxs := []string{"123", "-4.5", "'c'", "true", "[1, 2]", "{a: 1}", "b0", "error(s1)", "1234567890123", "arr", "m", "immutable([s0])", "[s0, s1]", "len", "e", "[[s1], {q: s2}]", "-9007199254740993"}
 	typed := []string{"s0", "b0", "arr", "m", "e", "1", "2.5", "'c'", "true", "undefined", "error(s0)", "immutable(arr)", "immutable(m)", "rep", "len", "copy", "format", "type_name", "is_undefined", "is_immutable_array"}
+	reps := []string{"\"a\"", "\"ab\"", "s0", "\"xyz\""}
+	if wide {
+		chars := []string{"'\u00e9'", "'\u20ac'", "'\U0001F600'", "char(55296)", "char(1114112)", "'\u200b'"}
+		nonstr = append(nonstr, chars...)
+		nonstr = append(nonstr, "['\u00e9', s1]", "{\"\u00e9\": s0}")
+		vals = append(vals, chars...)
+		vals = append(vals, "['\u20ac', '\u00e9']", "{\"\u4e16\": s1}", "b0 + b0")
+		fmts = append(fmts, "\u00e9%s", "%5s\u20ac", "%-6v\U0001F600", "%3c", "%-4c|", "%8q", "%+q", "%#q", "%+8q", "%#U", "%#8U", "%\u00e9", "%6.2s", "\u65e5%s\u672c", "%7.3v", "%-8.2q",
+			"%2s", "%-3s", "%4v", "%1s\u00e9", "\u20ac%3v", "%s%2s", "%2s%2s", "%x\u00e9", "%.1x", "%-5.1s|", "%08s", "%*c", "%-*q", "%5T\u00e9", "%\xff", "%s \u00e9 %d", "%[1]s%[1]3s")
+		args = append(args, "233", "8364", "128512", "55296", "1114112", "65533", "'\u00e9'", "'\U0001F600'", "s0", "s1", "[s1, '\u20ac']")
+		idxs = append(idxs, chars...)
+		reps = append(reps, "\"\u00e9\"", "\"\u20aca\"", "s1", "\"\\xff\"")
+	}
 	n := 3 + r.Intn(8)
+	if wide { // short: under a maximum inside the window of one value the statements after it are not reached
+		n = 1 + r.Intn(5)
+	}
 	for i := 0; i < n; i++ {
 		switch r.Intn(17) {
 		case 14:
@@ -952,6 +977,10 @@ func genStrProg(r *lib.RNG, L int) string {
 		case 15:
 			fmt.Fprintf(&sb, "%s = type_name(%s)\n", sv(), lib.Pick(r, typed))
 		case 16:
+			if wide { // every key is kept: what the program leaves behind does not depend on the iteration order
+				sb.WriteString("for k, v in m { arr = append(arr, k) }\n")
+				break
+			}
 			fmt.Fprintf(&sb, "for k, v in m { %s = k; arr = append(arr, k) }\n", sv())
 		case 0, 1:
 			fmt.Fprintf(&sb, "%s = %s + %s\n", sv(), sv(), sv())
@@ -995,7 +1024,7 @@ func genStrProg(r *lib.RNG, L int) string {
 		case 11:
 			fmt.Fprintf(&sb, "for i := 0; i < %d; i++ { %s += %s }\n", 1+r.Intn(4), sv(), sv())
 		case 12:
-			fmt.Fprintf(&sb, "%s = rep(%s, %d)\n", sv(), lib.Pick(r, []string{"\"a\"", "\"ab\"", "s0", "\"xyz\""}), near())
+			fmt.Fprintf(&sb, "%s = rep(%s, %d)\n", sv(), lib.Pick(r, reps), near())
 		case 13:
 			fmt.Fprintf(&sb, "%s = string(b0)\nm.k%d = %s\n", sv(), r.Intn(3), sv())
 		}
@@ -1017,7 +1046,7 @@ func lengthStream(r *lib.RNG) {
 				} else {
 					c.maxBytes = L
 				}
-				src := genStrProg(rr, L)
+				src := genStrProg(rr, L, false)
 				o := runLen(src, c, "length", "random string program")
 				nt := o.run != nil && !o.run.timedOut
 				res.Count("length", fmt.Sprint(L, c.maxBytes, src), nt)
@@ -1135,7 +1164,8 @@ var padOps = []padOp{
 }
 
 // genPadProg: one to three random format calls with flags, widths (literal and '*') and precisions around L.
-func genPadProg(r *lib.RNG, L int, pre string) string {
+// wide: operands and literal text of 2-4 byte runes and invalid bytes, integer operands that are wide runes.
+func genPadProg(r *lib.RNG, L int, pre string, wide bool) string {
 	near := func() int {
 		switch r.Intn(5) {
 		case 0:
@@ -1150,16 +1180,27 @@ func genPadProg(r *lib.RNG, L int, pre string) string {
 		return r.Intn(L + 1)
 	}
 	var sb strings.Builder
-	fmt.Fprintf(&sb, "s0 := %s\ns1 := \"\"\nb0 := bytes(%s)\nb1 := bytes(0)\narr := []\nm := {}\n", lit(r.Intn(L/2+1)), lit(r.Intn(L/2+1)))
+	mk := lit
+	if wide {
+		mk = func(n int) string { return wlit(r, n) }
+	}
+	fmt.Fprintf(&sb, "s0 := %s\ns1 := \"\"\nb0 := bytes(%s)\nb1 := bytes(0)\narr := []\nm := {}\n", mk(r.Intn(L/2+1)), mk(r.Intn(L/2+1)))
 	sb.WriteString(pre)
 	verbs := "ddssvvqxxXXctfeUbogT"
 	args := []string{"s0", "s1", "b0", "b1", "0", "5", "-7", "122", "12345", "2.5", "0.0", "'z'", "true", "arr", "m", "undefined", "[s0]", "\"ab\"", "\"\""}
+	pres, posts := []string{"n=", "[", "ab", "%%"}, []string{"|", " ", "%%"}
+	if wide {
+		verbs = "ssssvvvqqqxXccUUdtT"
+		args = append(args, "s0", "s0", "b0", "233", "8364", "128512", "55296", "1114112", "'\u00e9'", "'\U0001F600'", "\"\u00e9\u00e9\"", "\"\u20ac\"", "\"\\xff\u00e9\"", "[s0, '\u20ac']", "{\"\u00e9\": s0}", "error(s0)")
+		pres = append(pres, "\u00e9", "\u20ac=", "\U0001F600", "a\u00e9", "\u65e5\u672c", "abc")
+		posts = append(posts, "\u00e9", "\u20ac", "\U0001F600")
+	}
 	n := 1 + r.Intn(3)
 	for i := 0; i < n; i++ {
 		var f strings.Builder
 		var as []string
 		if r.Chance(1, 4) {
-			f.WriteString(lib.Pick(r, []string{"n=", "[", "ab", "%%"}))
+			f.WriteString(lib.Pick(r, pres))
 		}
 		k := 1
 		if r.Chance(1, 5) {
@@ -1200,7 +1241,7 @@ func genPadProg(r *lib.RNG, L int, pre string) string {
 			as = append(as, lib.Pick(r, args))
 		}
 		if r.Chance(1, 8) {
-			f.WriteString(lib.Pick(r, []string{"|", " ", "%%"}))
+			f.WriteString(lib.Pick(r, posts))
 		}
 		call := "format(" + strconv.Quote(f.String()) + ", " + strings.Join(as, ", ") + ")"
 		switch r.Intn(5) {
@@ -1317,7 +1358,7 @@ func padStream(r *lib.RNG) {
 			case 1:
 				primeLen = 1024
 			}
-			src := genPadProg(rr, L, pre)
+			src := genPadProg(rr, L, pre, false)
 			o := runLen(src, c, "padding-gen", note)
 			nt := o.run != nil && !o.run.timedOut
 			res.Count("padding-gen", fmt.Sprint(L, primeLen, src), nt)
@@ -1376,8 +1417,8 @@ func depthStream(r *lib.RNG) {
 		"d := %d\nmk := func() { r := undefined; r = func() { if d == 0 { return 0 }; d -= 1; return r() + 1 }; return r }\nf := mk()\nx := f()\n",
 	}
 	for si, D0 := range []int{3, 500, tengo.MaxFrames - 3, tengo.MaxFrames - 2, tengo.MaxFrames - 1, tengo.MaxFrames, tengo.MaxFrames + 1, 3000, 100000,
-		-(tengo.MaxFrames - 2), -(tengo.MaxFrames - 1), -tengo.MaxFrames, -3000, -(tengo.MaxFrames - 2) - 1<<20, -(tengo.MaxFrames-1) - 1<<20, -3000 - 1<<20,
-		-(tengo.MaxFrames - 3) - 2<<20, -(tengo.MaxFrames-2) - 2<<20, -(tengo.MaxFrames-1) - 2<<20, -3000 - 2<<20} {
+		-(tengo.MaxFrames - 2), -(tengo.MaxFrames - 1), -tengo.MaxFrames, -3000, -(tengo.MaxFrames - 2) - 1<<20, -(tengo.MaxFrames - 1) - 1<<20, -3000 - 1<<20,
+		-(tengo.MaxFrames - 3) - 2<<20, -(tengo.MaxFrames - 2) - 2<<20, -(tengo.MaxFrames - 1) - 2<<20, -3000 - 2<<20} {
 		// non-negative D: shape 0; negative encodings: the other shapes at the depths around the limit
 		_ = si
 		shape, D := 0, D0
@@ -1660,7 +1701,7 @@ func main() {
 	defer drv.Close()
 	res.DriverUsed = drv != nil
 	res.Rule = "budget: one program = one unlimited probed run + one run per budget; non-trivial = at least 2 tracked allocations and more than 10 dispatched instructions, distinct by source. " +
-		"length: one program under one (MaxStringLen, MaxBytesLen) pair; non-trivial = it compiled and ran to an outcome, distinct by (maxima, source). boundary/padding/depth/stack: every listed case (padding: per limit, operation, would-be length and printer-pool state); padding-gen as length"
+		"length: one program under one (MaxStringLen, MaxBytesLen) pair; non-trivial = it compiled and ran to an outcome, distinct by (maxima, source). boundary/padding/depth/stack: every listed case (padding: per limit, operation, would-be length and printer-pool state); padding-gen as length. wide: one listed operation under one maximum (every maximum from the rune count - 1 to the byte count + 1 of its result); length-wide/padding-wide as length, maxima taken from the values the program leaves behind under maxima of 1 MiB"
 	if flags.Replay != "" {
 		replay(flags.Replay)
 		res.Write(flags.Out)
@@ -1701,5 +1742,6 @@ func main() {
 	depthStream(rng.Fork())
 	// last: its random numbers come from a generator of their own, the streams above keep their inputs
 	padStream(lib.NewRNG(flags.Seed ^ 0x70616464))
+	wideStream(lib.NewRNG(flags.Seed ^ 0x77696465))
 	res.Write(flags.Out)
 }
